@@ -10,4 +10,4 @@ for d in $SRC/C??/SEED?; do
   if [ ! -d $t ]; then mkdir -p $t; cp $d/patch.diff $d/demo.py $d/meta.json $t/; fi
   done
 for t in seeded/C??-?; do [ -s $t/eval.json ] || todo+=("$t"); done
-printf '%s\n' "${todo[@]}" | xargs -P 3 -I{} bash -c 'p=$(basename {} | cut -d- -f1); case $p in C02) c="C02 C07";; C05) c="C05 C16";; C09) c="C09 C01";; C10) c="C10 C01";; C07) c="C07 C02";; C06) c="C06 C07";; *) c=$p;; esac; VERIF_JOBS=6 python3 tools/seedeval.py {} $c > {}/eval.json 2>{}/eval.err; echo done {}'
+printf '%s\n' "${todo[@]}" | xargs -P 3 -I{} bash -c 'p=$(basename {} | cut -d- -f1); case $p in C02) c="C02 C07";; C05) c="C05 C16";; C09) c="C09 C01";; C10) c="C10 C01";; C07) c="C07 C02";; C06) c="C06 C07";; C08) c="C08 C03";; C20) c="C20 C04";; C01) c="C01 C09";; C13) c="C13 C14";; *) c=$p;; esac; VERIF_JOBS=6 python3 tools/seedeval.py {} $c > {}/eval.json 2>{}/eval.err; echo done {}'
